@@ -314,6 +314,12 @@ def check_fourway(P, R, tu):
             e3 = e2["c"][2] if len(e2["c"]) > 2 else None
             P3 = _pred(e3["c"][0]) if e3 is not None and e3.get("k") == "IfStmt" else None
             if P3 is None or P3[0] != P1[0] or len(e3["c"]) < 3 or e3["c"][2] is None:
+                if e3 is not None and any(y.get("k") == "ConditionalOperator" and (_pred(y["c"][0]) or (None,))[0] == P1[0] for y in walk(e3)):
+                    # the two arms folded into one statement (`diff += forw ? 7 : -7`): which way each steps is a matter of the
+                    # values, which RF2-round decides by decoding every target of this kind in both directions; no verdict here
+                    R.notes.append("%s: %s: the carry is one statement with a conditional expression on the direction flag (arms not "
+                                   "compared structurally; decided by RF2-round)" % (rule, site))
+                    continue
                 R.finding(rule, fn, site + " carry branches", "the carry must branch on the direction flag into a forward and a backward arm", e2)
                 continue
             fwd, bwd = (e3["c"][1], e3["c"][2]) if P3[1] == fwt else (e3["c"][2], e3["c"][1])
